@@ -154,8 +154,11 @@ def run_case(case):
                     return bad(f'balanced publisher {name} listeners: frames missing {missing[:8]} duplicated {dup[:8]} at the synchronized consumers', f'balanced-frames-{name}', classes)
         ta = max(rec['t'] for k in a['calls'] for rec in a['calls'][k]) / 1e6
         tb = max(rec['t'] for k in b['calls'] for rec in b['calls'][k]) / 1e6
-        if ta > tb + SLACK_MS:
-            return bad(f'balanced stream finished at {ta:.0f} ms with the ephemeral listeners present, {tb:.0f} ms without (slack {SLACK_MS} ms)', 'sync-stream-delayed:balanced', classes)
+        # which worker gets which frame depends on timing, so a couple of frames may legitimately land on the slower worker in one run and not in
+        # the other: that much difference is not a hold-up
+        slack = SLACK_MS + 2 * max(max(w_) for w_ in case['sync_work'])
+        if ta > tb + slack:
+            return bad(f'balanced stream finished at {ta:.0f} ms with the ephemeral listeners present, {tb:.0f} ms without (slack {slack} ms)', 'sync-stream-delayed:balanced', classes)
         a_calls, b_calls = {}, {}
     else:
         a_calls, b_calls = a['calls'], b['calls']
@@ -170,8 +173,14 @@ def run_case(case):
     for k in a_calls:
         if a['calls'][k] and b['calls'][k]:
             ta, tb = a['calls'][k][-1]['t'] / 1e6, b['calls'][k][-1]['t'] / 1e6
-            if ta > tb + SLACK_MS:
-                return bad(f'{k} finished at {ta:.0f} ms with the ephemeral listeners present, {tb:.0f} ms without (slack {SLACK_MS} ms)', 'sync-stream-delayed', classes)
+            # with link delays above the 100 ms request interval the stream is latency-bound and its pace is set by how many duplicated start-up
+            # requests happen to be in flight - any perturbation (a HELLO more or less) changes it by tens of percent in either direction. There
+            # only a gross hold-up is judged; below the request interval the two runs must agree to within the slack
+            slow_net = case['net']['cls'] in ('over_poll', 'slow')
+            limit = 2 * tb + 1000 if slow_net else tb + SLACK_MS
+            if ta > limit:
+                return bad(f'{k} finished at {ta:.0f} ms with the ephemeral listeners present, {tb:.0f} ms without (' + ('limit 2x + 1000 ms, delays above the request interval' if slow_net else f'slack {SLACK_MS} ms') + ')',
+                           'sync-stream-delayed', classes)
     # (c) '??' never sends on a request channel
     dbl = {e['id'] for e in case['ephs'] if e['mark'] == '??'}
     for r in a['pushes']:
